@@ -434,7 +434,7 @@ func c09Oracle(in string) eng.Res {
 func init() {
 	eng.Register(&eng.Check{
 		ID: "C04", Level: "exploration", Pre: WriteCorpusCache,
-		Rule: "every sequence of ≤3 (quick) / ≤4 (thorough) statements over a 62-statement fragment built from the three mechanisms named in the property's anchors (reserved keywords in lower/UPPER/Mixed case as keys and as unquoted values; board blocks before/between/after declarations they read or delete; globs, vars, one import) plus formatting-sensitive values, and the corpus; uncompilable programs are skipped (trivial); oracle: canonical projection (all boards, objects, attributes, connections, config) of Compile(x) equals that of Compile(Format(x))",
+		Rule: "every sequence of ≤3 (quick) / ≤4 (thorough) statements over a 62-statement fragment built from the three mechanisms named in the property's anchors (reserved keywords in lower/UPPER/Mixed case as keys and as unquoted values; board blocks before/between/after declarations they read or delete; globs, vars, one import) plus formatting-sensitive values, every statement nested 2..12 maps deep, and the corpus; uncompilable programs are skipped (trivial); oracle: canonical projection (all boards, objects, attributes, connections, config) of Compile(x) equals that of Compile(Format(x))",
 		Oracles: map[string]eng.Oracle{"fmt-meaning": c04Oracle},
 		Run: func(w *eng.W) {
 			lvl := func(k int) {
@@ -447,6 +447,13 @@ func init() {
 			}
 			w.Phase("stmts-in-container", func() {
 				Seqs(c04Stmts, 2, func(s []string) { w.Eval("fmt-meaning", "k: {\n"+strings.Join(s, "\n")+"\n}") })
+			})
+			w.Phase("stmts x depth<=12", func() {
+				for _, st := range c04Stmts {
+					for d := 2; d <= 12; d++ {
+						w.Eval("fmt-meaning", strings.Repeat("k: {\n", d)+st+strings.Repeat("\n}", d))
+					}
+				}
 			})
 			w.Phase("corpus", func() {
 				for _, src := range Corpus() {
